@@ -30,6 +30,9 @@ BLOCKS = {
     'user-function':   ("x = 0.25*fn(x) + G\nd = fn(x)", {'x': {'x': 0.5}}, ['x'], ['G'], {'fn': lambda v: 2 * v + 1}),
     # a user function registered under the name of a function the solver module imports from math: the equations mean the user's function
     'user-function-math-name': ("x = 0.25*sqrt(x) + G\nd = sqrt(x)", {'x': {'x': 0.5}}, ['x'], ['G'], {'sqrt': lambda v: 2 * v + 1}),
+    # a sign-flipped identity (d = -x) whose left-hand side is the base of a power and a factor elsewhere: whatever the reducer does with d, the reported
+    # values have to satisfy the submitted equations
+    'negated-alias':   ("x = 0.5*x + G\nd = -x\nw = 3 + d**2 - 0.5*d\nv = 2*d*d - d/4", {'x': {'x': 0.5}}, ['x'], ['G'], {}),
     'division-first':  ("x = 1/Y + 0*y\ny = 0.5*y + G", {'x': {}, 'y': {'y': 0.5}}, ['x', 'y'], ['G', 'Y'], {}),
     'division-middle': ("a = 0.5*a + 1 + 0*x\nx = 2/Y + 0*y\ny = 0.25*y + G + 0*a", {'a': {}, 'x': {}, 'y': {}}, ['a', 'x', 'y'], ['G', 'Y'], {}),
     'three-coupled':   ("x = 0.5*y + G\ny = 0.25*x + 0.3*z + 1\nz = 0.2*x - 0.4*y + G",
